@@ -253,7 +253,9 @@ impl StateMachine<'_> {
                 _ => Cow::from(file),
             };
             let label = format_label(&self.config.file_modified_label);
-            let name = get_repeated_file_path_from_diff_line(&self.diff_line).unwrap_or_default();
+            let mut name =
+                get_repeated_file_path_from_diff_line(&self.diff_line).unwrap_or_default();
+            utils::path::relativize_path_maybe(&mut name, self.config);
             let line = format!("{}{}", label, format_file(&name));
             write_generic_diff_header_header_line(
                 &line,
